@@ -746,7 +746,7 @@ func runC17(r *rt.Runner) {
 	for i := 0; i < r.Scale(200, 6000); i++ {
 		r.Do(fmt.Sprintf("api/%d", i), func(c *rt.C) {
 			g := &j5Gen{rng: c.Rand()}
-			b, plans := g.apiBundle(true, i%3 == 0, g.rng.Intn(5))
+			b, plans := g.apiBundle(true, i%3 == 0, g.rng.Intn(7))
 			c17Bundle(c, b, plans, fmt.Sprintf("api:%d", i), "entities-in-bundle")
 		})
 	}
